@@ -1,6 +1,154 @@
+(* Model side of the text / name ops (coq/Hand/Text.v, coq/Hand/Names.v):
+   date_q parse month_from_str weekday_from_str month_try_from weekday_try_from month_q weekday_q.
+   Trusted for the correspondence only: token reading in the same order as harness/src/eval.rs (so that
+   BADCAL / BADCASE / BADARG come out alike), strict UTF-8 <-> code point conversion, printing. *)
 module ZA = Z
 type ostring = string
 open Jv
 open Util
 
-let eval (toks : ostring list) : ostring = ignore toks; raise Unsupported
+(* ---------------------------------------------------------------- token reader (mirrors eval.rs `Toks`) *)
+type toks = { mutable rest : ostring list }
+let tok t = match t.rest with [] -> raise Bad_case | x :: r -> t.rest <- r; x
+let fin t = if t.rest <> [] then raise Bad_case
+(* Rust `tok.parse::<u32>()` after the harness' digit check: "-0" is rejected for unsigned types *)
+let tok_u32 t = let s = tok t in if String.length s > 0 && s.[0] = '-' then raise Bad_case else u32 s
+
+(* ---------------------------------------------------------------- UTF-8 (strict, as String::from_utf8) *)
+let decode_utf8 (s : ostring) : z list =
+  let n = String.length s in
+  let b i = if i >= n then raise Bad_case else Char.code s.[i] in
+  let cont lo hi i = let c = b i in if c < lo || c > hi then raise Bad_case else c land 0x3f in
+  let rec go i acc =
+    if i >= n then List.rev acc else
+    let c = b i in
+    if c < 0x80 then go (i + 1) (zi c :: acc)
+    else if c >= 0xc2 && c <= 0xdf then
+      let c1 = cont 0x80 0xbf (i + 1) in go (i + 2) (zi (((c land 0x1f) lsl 6) lor c1) :: acc)
+    else if c >= 0xe0 && c <= 0xef then begin
+      let lo, hi = if c = 0xe0 then 0xa0, 0xbf else if c = 0xed then 0x80, 0x9f else 0x80, 0xbf in
+      let c1 = cont lo hi (i + 1) in
+      let c2 = cont 0x80 0xbf (i + 2) in
+      go (i + 3) (zi (((c land 0x0f) lsl 12) lor (c1 lsl 6) lor c2) :: acc) end
+    else if c >= 0xf0 && c <= 0xf4 then begin
+      let lo, hi = if c = 0xf0 then 0x90, 0xbf else if c = 0xf4 then 0x80, 0x8f else 0x80, 0xbf in
+      let c1 = cont lo hi (i + 1) in
+      let c2 = cont 0x80 0xbf (i + 2) in
+      let c3 = cont 0x80 0xbf (i + 3) in
+      go (i + 4) (zi (((c land 0x07) lsl 18) lor (c1 lsl 12) lor (c2 lsl 6) lor c3) :: acc) end
+    else raise Bad_case in
+  go 0 []
+
+let encode_utf8 (l : z list) : ostring =
+  let buf = Buffer.create 16 in
+  List.iter (fun c ->
+    let c = ZA.to_int (zarith_of_z c) in
+    let add x = Buffer.add_char buf (Char.chr x) in
+    if c < 0x80 then add c
+    else if c < 0x800 then (add (0xc0 lor (c lsr 6)); add (0x80 lor (c land 0x3f)))
+    else if c < 0x10000 then (add (0xe0 lor (c lsr 12)); add (0x80 lor ((c lsr 6) land 0x3f)); add (0x80 lor (c land 0x3f)))
+    else (add (0xf0 lor (c lsr 18)); add (0x80 lor ((c lsr 12) land 0x3f)); add (0x80 lor ((c lsr 6) land 0x3f));
+          add (0x80 lor (c land 0x3f)))) l;
+  Buffer.contents buf
+
+let str_arg (t : ostring) : z list = decode_utf8 (unhex t)
+let hex_codes (l : z list) : ostring = hex_of (encode_utf8 l)
+let uplus (c : z) : ostring = Printf.sprintf "U+%04X" (ZA.to_int (zarith_of_z c))
+
+(* ---------------------------------------------------------------- printers *)
+let iek_s = function
+  | IEK_Empty -> "Empty" | IEK_InvalidDigit -> "InvalidDigit" | IEK_PosOverflow -> "PosOverflow" | IEK_NegOverflow -> "NegOverflow"
+
+let perr_s = function
+  | PDE_InvalidDate e -> "InvalidDate(" ^ derr_s e ^ ")"
+  | PDE_InvalidMonth v -> "InvalidMonth(" ^ zs v ^ ")"
+  | PDE_Trailing -> "Trailing"
+  | PDE_InvalidIntStart c -> "InvalidIntStart(" ^ uplus c ^ ")"
+  | PDE_InvalidUIntStart c -> "InvalidUIntStart(" ^ uplus c ^ ")"
+  | PDE_EmptyInt -> "EmptyInt"
+  | PDE_UnexpectedChar (e, g) -> "UnexpectedChar(" ^ uplus e ^ "," ^ uplus g ^ ")"
+  | PDE_UnexpectedEnd e -> "UnexpectedEnd(" ^ uplus e ^ ")"
+  | PDE_ParseInt k -> "ParseInt(" ^ iek_s k ^ ")"
+
+let ity_of = function
+  | "i8" -> Ty_i8 | "i16" -> Ty_i16 | "i32" -> Ty_i32 | "i64" -> Ty_i64 | "i128" -> Ty_i128 | "isize" -> Ty_isize
+  | "u8" -> Ty_u8 | "u16" -> Ty_u16 | "u32" -> Ty_u32 | "u64" -> Ty_u64 | "u128" -> Ty_u128 | "usize" -> Ty_usize
+  | _ -> raise Bad_case
+
+let weekday_of_z (n : z) : weekday =
+  match ZA.to_int (zarith_of_z n) with
+  | 1 -> Weekday_Monday | 2 -> Weekday_Tuesday | 3 -> Weekday_Wednesday | 4 -> Weekday_Thursday
+  | 5 -> Weekday_Friday | 6 -> Weekday_Saturday | 7 -> Weekday_Sunday | _ -> raise Bad_case
+
+let name_q name short display alt number number0 pred succ =
+  Printf.sprintf "name=%s;short=%s;display=%s;alt=%s;number=%s;number0=%s;pred=%s;succ=%s"
+    (hex_of (string_of_coq name)) (hex_of (string_of_coq short)) (hex_codes display) (hex_codes alt)
+    (zs number) (zs number0) (opt zs pred) (opt zs succ)
+
+let omap f = function None -> None | Some x -> Some (f x)
+
+(* ---------------------------------------------------------------- ops *)
+let eval (toks : ostring list) : ostring =
+  match toks with
+  | "date_q" :: rest ->
+    let t = { rest } in
+    let c = cal_of (tok t) in
+    let j = i32 (tok t) in
+    fin t;
+    let d = run (calendar_at_jdn c j) in
+    Printf.sprintf "weekday=%s;is_julian=%s;is_gregorian=%s;ordinal0=%s;day_ordinal0=%s;show=%s;showalt=%s"
+      (zs (run (weekday_number (run (date_weekday d))))) (bool_s (run (date_is_julian d))) (bool_s (run (date_is_gregorian d)))
+      (zs (run (date_ordinal0 d))) (zs (run (date_day_ordinal0 d)))
+      (hex_codes (run (show_date d))) (hex_codes (run (show_date_alt d)))
+  | "parse" :: rest ->
+    let t = { rest } in
+    let c = cal_of (tok t) in
+    let s = str_arg (tok t) in
+    fin t;
+    (match run (parse_date c s) with
+     | Ok d -> "Ok " ^ date_s d
+     | Err e -> "Err " ^ perr_s e)
+  | "month_from_str" :: rest ->
+    let t = { rest } in
+    let s = str_arg (tok t) in
+    fin t;
+    (match month_from_str s with Some m -> "Ok " ^ zs (run (month_number m)) | None -> "Err")
+  | "weekday_from_str" :: rest ->
+    let t = { rest } in
+    let s = str_arg (tok t) in
+    fin t;
+    (match weekday_from_str s with Some w -> "Ok " ^ zs (run (weekday_number w)) | None -> "Err")
+  | (("month_try_from" | "weekday_try_from") as op) :: rest ->
+    let t = { rest } in
+    let ty = tok t in
+    let v = parse_int (tok t) in
+    (* parse_big: a well-formed decimal beyond 128 bits is BADARG (before the end-of-line check) *)
+    if ZA.sign v < 0 && ZA.lt v (ZA.neg (ZA.shift_left ZA.one 127)) then "BADARG"
+    else if ZA.sign v >= 0 && ZA.geq v (ZA.shift_left ZA.one 128) then "BADARG"
+    else begin
+      fin t;
+      let ty = ity_of ty in
+      let vz = z_of_zarith v in
+      if not (ZA.leq (zarith_of_z (ity_lo ty)) v && ZA.leq v (zarith_of_z (ity_hi ty))) then "BADARG"
+      else if op = "month_try_from" then
+        (match month_try_from_ty ty vz with Some m -> "Ok " ^ zs (run (month_number m)) | None -> "Err")
+      else
+        (match run (weekday_try_from_ty ty vz) with Some w -> "Ok " ^ zs (run (weekday_number w)) | None -> "Err")
+    end
+  | "month_q" :: rest ->
+    let t = { rest } in
+    let n = tok_u32 t in
+    let m = month_of_int (zs n) in
+    fin t;
+    name_q (run (month_name m)) (run (month_short_name m)) (run (month_display false m)) (run (month_display true m))
+      (run (month_number m)) (run (month_number0 m))
+      (omap (fun x -> run (month_number x)) (run (month_pred m))) (omap (fun x -> run (month_number x)) (run (month_succ m)))
+  | "weekday_q" :: rest ->
+    let t = { rest } in
+    let n = tok_u32 t in
+    fin t;
+    let w = weekday_of_z n in
+    name_q (run (weekday_name w)) (run (weekday_short_name w)) (run (weekday_display false w)) (run (weekday_display true w))
+      (run (weekday_number w)) (run (weekday_number0 w))
+      (omap (fun x -> run (weekday_number x)) (run (weekday_pred w))) (omap (fun x -> run (weekday_number x)) (run (weekday_succ w)))
+  | _ -> raise Unsupported
